@@ -339,3 +339,7 @@ class FullBootSuite(Suite):
 
 
 SUITES = [LoginSuite(), FullBootSuite()]
+
+from . import C18u  # noqa: E402  (the U-Boot stage; imports this module)
+
+SUITES = SUITES + C18u.SUITES
